@@ -34,7 +34,8 @@ func (e *FnExec) typeFacts(t types.Type, v *Term, st *State) *Term {
 		}
 	case "Slice":
 		return And(Le(IntLit(0), SLen(v)), Le(SLen(v), SCap(v)), Le(IntLit(0), SOff(v)), Lt(Root(SArr(v)), st.ctr),
-			Le(SCap(v), BigLit(new(big.Int).Sub(pow2(63), big.NewInt(1)))),
+			// physical bound: no existing slice has more than 2^46 elements (listed assumption)
+			Le(SCap(v), BigLit(pow2(46))),
 			Imp(Eq(SArr(v), NilLoc), And(Eq(SLen(v), IntLit(0)), Eq(SCap(v), IntLit(0)))))
 	case "Loc":
 		return Lt(Root(v), st.ctr)
